@@ -89,8 +89,22 @@ fn take(inner: &Rc<RefCell<Inner>>) -> String {
     }
 }
 
-fn run_case<const W: usize, const R: usize, const NB: usize>(kind: &str, start: u32, len: u32, ops: &[&str]) -> String {
-    let inner = Rc::new(RefCell::new(Inner { mem: vec![0u8; CAP], log: vec![] }));
+/// initial contents of the device: "z" all zero (default: a missing erase shows), "b" blank, "t<k>" / "h<k>" blank except the
+/// last / first k bytes of the range (zero), "a" alternating 0xA5 / 0xFF
+fn init_mem(init: &str, start: u32, len: u32) -> Vec<u8> {
+    let (s, e) = (start as usize, (start + len) as usize);
+    let k: usize = init.get(1..).and_then(|x| x.parse().ok()).unwrap_or(0);
+    match init.as_bytes().first() {
+        Some(b'b') => vec![0xFFu8; CAP],
+        Some(b't') => { let mut m = vec![0xFFu8; CAP]; for x in e.saturating_sub(k).max(s)..e.min(CAP) { m[x] = 0; } m }
+        Some(b'h') => { let mut m = vec![0xFFu8; CAP]; for x in s..(s + k).min(e).min(CAP) { m[x] = 0; } m }
+        Some(b'a') => (0..CAP).map(|x| if x % 2 == 0 { 0xA5 } else { 0xFF }).collect(),
+        _ => vec![0u8; CAP],
+    }
+}
+
+fn run_case<const W: usize, const R: usize, const NB: usize>(kind: &str, start: u32, len: u32, ops: &[&str], init: &str) -> String {
+    let inner = Rc::new(RefCell::new(Inner { mem: init_mem(init, start, len), log: vec![] }));
     let mut out: Vec<String> = vec![];
     let range = start..start + len;
     macro_rules! drive {
@@ -176,11 +190,11 @@ fn run_case<const W: usize, const R: usize, const NB: usize>(kind: &str, start: 
 }
 
 macro_rules! dispatch {
-    ($w:expr, $r:expr, $nb:expr, $k:expr, $s:expr, $l:expr, $ops:expr; $( ($W:literal, $R:literal) ),*) => {
+    ($w:expr, $r:expr, $nb:expr, $k:expr, $s:expr, $l:expr, $ops:expr, $init:expr; $( ($W:literal, $R:literal) ),*) => {
         match ($w, $r, $nb) {
-            $( ($W, $R, 5) => run_case::<$W, $R, 5>($k, $s, $l, $ops),
-               ($W, $R, 8) => run_case::<$W, $R, 8>($k, $s, $l, $ops),
-               ($W, $R, 32) => run_case::<$W, $R, 32>($k, $s, $l, $ops), )*
+            $( ($W, $R, 5) => run_case::<$W, $R, 5>($k, $s, $l, $ops, $init),
+               ($W, $R, 8) => run_case::<$W, $R, 8>($k, $s, $l, $ops, $init),
+               ($W, $R, 32) => run_case::<$W, $R, 32>($k, $s, $l, $ops, $init), )*
             _ => "?geometry".to_string(),
         }
     };
@@ -197,7 +211,8 @@ pub fn run() {
         let (kind, w, r, nb): (&str, usize, usize, usize) = (h[0], h[1].parse().unwrap(), h[2].parse().unwrap(), h[3].parse().unwrap());
         let (start, len): (u32, u32) = (h[4].parse().unwrap(), h[5].parse().unwrap());
         let ops: Vec<&str> = body.split(';').map(|s| s.trim()).collect();
-        let out = dispatch!(w, r, nb, kind, start, len, &ops;
+        let init = if h.len() > 6 { h[6] } else { "z" };
+        let out = dispatch!(w, r, nb, kind, start, len, &ops, init;
             (1, 1), (2, 1), (2, 2), (4, 1), (4, 2), (4, 4), (8, 1), (8, 2), (8, 4), (8, 8),
             (16, 1), (16, 2), (16, 4), (16, 8), (16, 16), (32, 1), (32, 2), (32, 4), (32, 8), (32, 16), (32, 32));
         println!("{out}");
